@@ -110,6 +110,18 @@ CHECKS = {
         note="Small curves are complete; shipped curves are sampled. Results compared as group elements (coordinates mod p).",
         design="5/C17",
     ),
+    "C18": dict(
+        technique="differential monitor against OpenSSL ECDSA on raw digests + RFC 6979 reference model (anchored to the RFC vectors) + exhaustive single-bit tampering monitor with exception-type oracle",
+        text="For all 17 curves x five hashes x six encodings: library signatures are verified by the library and OpenSSL (strict DER), OpenSSL signatures (s and n-s) by the library, deterministic signatures are compared with an independent RFC 6979 model using OpenSSL for k*G; every bit of a 16-byte message and of the encoded signature is flipped and must give BadSignatureError, as must another key, r,s in {0,n,n+1,2^k,r+n,s+n} and truncated/extended/re-tagged encodings; decoders may only raise MalformedSignature/UnexpectedDER.",
+        note="OpenSSL gets raw digests so truncation rules are compared independently; EdDSA excluded.",
+        design="5/C18",
+    ),
+    "C19": dict(
+        technique="differential monitor against OpenSSL d2i/i2d and point conversion in both directions + accept/reject and exception-type monitors over all prefixes, appended suffixes and single-byte mutations of valid encodings",
+        text="For all 17 curves and keys incl. small / leading-zero scalars and leading-zero coordinates: every public (raw, uncompressed, compressed, hybrid, DER named/explicit x 3 point forms, PEM) and private (raw, SEC1/PKCS#8 x named/explicit, PEM) encoding is decoded back, parsed by OpenSSL to the same key, OpenSSL's encodings are parsed by the library, SPKI/SEC1 bytes must equal OpenSSL's; the 27-byte P-256 header conversion of bec2format.crypto is checked against OpenSSL SPKI. Every proper prefix and three suffixes of each encoding must be rejected (format pinned), ~12 replacement values at every byte and PEM cuts may only raise UnexpectedDER/MalformedPointError/UnknownCurveError/ValueError.",
+        note="Mutation acceptance is not judged (may be another valid key); quick tier mutates 3 curves, thorough all 17.",
+        design="5/C19",
+    ),
 }
 
 NOT_YET = "check not built yet in this session (see DESIGN.md section 5 for the planned monitor)"
